@@ -29,5 +29,12 @@ def run(P, R, L):
     from .c11 import pair1, grd5
     pair1(P, R, L)
     grd5(P, R, L)
+    R.clause("KEY-1", "InternalKey order: user key ascending, then sequence number descending (newest first); the sequence only breaks ties")
+    K.key1_internal_key_order(P, R, L)
+    R.clause("ORD-3", "a flush installs the new version before the immutable memtable is dropped (a snapshot read or a new iterator in between must find the data in one of them)")
+    K.ord3_flush(P, R, L)
+    R.clause("PAIR-5", "older versions of a key that a snapshot needs are registered with the table's filter like any other entry (Table::get consults the filter)")
+    from .c14 import pair5
+    pair5(P, R, L)
     R.not_decided += ["that get and iteration agree for every history", "that the kept entries are the right ones for every snapshot set "
                       "(the guard shape is necessary, not sufficient)"]
